@@ -22,6 +22,7 @@ pub fn plain(a: &Args, rep: &mut Report) {
     let sh = Shard::from_args(a);
     let mut rng = sh.rng(0x91a1);
     for h in 0..sh.n {
+        heartbeat();
         let mut hr = rng.fork();
         let mut m: HashMap<String, u64> = if hr.chance(1, 2) { HashMap::new() } else { HashMap::with_capacity(hr.usize(40)) };
         let mut c: HashMap<u64, u64> = HashMap::new();
@@ -317,6 +318,7 @@ pub fn limits(a: &Args, rep: &mut Report) {
 // ------------------------------------------------------------------------------------------
 
 fn clones_case<K: El, V: El>(cfg: &Cfg, rng: &mut Rng, rep: &mut Report, tag: &str) {
+    heartbeat();
     ledger_reset();
     let _ = take_violations();
     // source: random history
@@ -704,6 +706,7 @@ pub fn meta(a: &Args, rep: &mut Report) {
             neutral: hr.usize(4),
         };
         let (r1, r2, r3) = (recipe(&mut hr), recipe(&mut hr), recipe(&mut hr));
+        heartbeat();
         let tag = format!("meta-{}-s{}-i{}-h{}", flavour(), sh.seed, sh.index, h);
         let body = vec![("kind", "meta".to_string()), ("contents", format!("{contents:?}")), ("recipes", format!("{r1:?} | {r2:?} | {r3:?}"))];
         rep.evaluations += 1;
